@@ -232,12 +232,15 @@ pub trait ParallelIterator: Sized + Send {
         self.into_seq_vec().into_iter().product()
     }
 
+    /// rayon reduces every split from its own `identity()` and then combines the partial
+    /// results; the model does the same over seeded contiguous splits.
     fn reduce<OP, ID>(self, identity: ID, op: OP) -> Self::Item
     where
         OP: Fn(Self::Item, Self::Item) -> Self::Item + Sync + Send,
         ID: Fn() -> Self::Item + Sync + Send,
     {
-        self.into_seq_vec().into_iter().fold(identity(), op)
+        let parts = split_fold(self.into_seq_vec(), &identity, &op);
+        parts.into_iter().reduce(&op).unwrap_or_else(identity)
     }
 
     fn reduce_with<OP>(self, op: OP) -> Option<Self::Item>
@@ -247,16 +250,105 @@ pub trait ParallelIterator: Sized + Send {
         self.into_seq_vec().into_iter().reduce(op)
     }
 
-    /// rayon folds per split; the model folds everything into one accumulator
-    /// (a legal outcome: a single split).
+    /// rayon folds every split into its own accumulator (started from `identity()`); how
+    /// the input is split is up to rayon.  The model cuts the items into 1..=8 contiguous
+    /// segments at seeded places (one segment in a third of the calls).
     fn fold<T, ID, F>(self, identity: ID, fold_op: F) -> VecIter<T>
     where
         F: Fn(T, Self::Item) -> T + Sync + Send,
         ID: Fn() -> T + Sync + Send,
         T: Send,
     {
-        let acc = self.into_seq_vec().into_iter().fold(identity(), fold_op);
-        VecIter { items: vec![acc] }
+        VecIter { items: split_fold(self.into_seq_vec(), &identity, &fold_op) }
+    }
+
+    fn fold_with<T, F>(self, init: T, fold_op: F) -> VecIter<T>
+    where
+        F: Fn(T, Self::Item) -> T + Sync + Send,
+        T: Send + Clone + Sync,
+    {
+        self.fold(move || init.clone(), fold_op)
+    }
+
+    fn min_by<F>(self, f: F) -> Option<Self::Item>
+    where
+        F: Sync + Send + Fn(&Self::Item, &Self::Item) -> std::cmp::Ordering,
+    {
+        self.into_seq_vec().into_iter().min_by(f)
+    }
+
+    fn max_by<F>(self, f: F) -> Option<Self::Item>
+    where
+        F: Sync + Send + Fn(&Self::Item, &Self::Item) -> std::cmp::Ordering,
+    {
+        self.into_seq_vec().into_iter().max_by(f)
+    }
+
+    fn update<F>(self, update_op: F) -> Map<Self, impl Fn(Self::Item) -> Self::Item + Sync + Send>
+    where
+        F: Fn(&mut Self::Item) + Sync + Send,
+    {
+        self.map(move |mut x| {
+            update_op(&mut x);
+            x
+        })
+    }
+
+    fn find_map_any<P, R>(self, predicate: P) -> Option<R>
+    where
+        P: Fn(Self::Item) -> Option<R> + Sync + Send,
+        R: Send,
+    {
+        self.filter_map(predicate).into_seq_vec().into_iter().next()
+    }
+
+    fn find_map_first<P, R>(self, predicate: P) -> Option<R>
+    where
+        P: Fn(Self::Item) -> Option<R> + Sync + Send,
+        R: Send,
+    {
+        self.filter_map(predicate).into_seq_vec().into_iter().next()
+    }
+
+    fn partition<A, B, P>(self, predicate: P) -> (A, B)
+    where
+        A: Default + Send + Extend<Self::Item>,
+        B: Default + Send + Extend<Self::Item>,
+        P: Fn(&Self::Item) -> bool + Sync + Send,
+    {
+        let mut a = A::default();
+        let mut b = B::default();
+        let flagged = self.map(move |x| (predicate(&x), x)).into_seq_vec();
+        for (yes, x) in flagged {
+            if yes {
+                a.extend(std::iter::once(x));
+            } else {
+                b.extend(std::iter::once(x));
+            }
+        }
+        (a, b)
+    }
+
+    fn try_for_each_with<OP, T, E>(self, init: T, op: OP) -> Result<(), E>
+    where
+        OP: Fn(&mut T, Self::Item) -> Result<(), E> + Sync + Send,
+        T: Send + Clone + Sync,
+        E: Send,
+    {
+        self.try_for_each(move |x| {
+            let mut t = init.clone();
+            op(&mut t, x)
+        })
+    }
+
+    fn flatten(self) -> FlatMapIter<Self, FlatPar<fn(Self::Item) -> Self::Item>>
+    where
+        Self::Item: IntoParallelIterator,
+    {
+        fn id<T>(t: T) -> T {
+            t
+        }
+        self.flat_map(id::<Self::Item> as fn(Self::Item) -> Self::Item)
     }
 
     fn min(self) -> Option<Self::Item>
@@ -425,6 +517,38 @@ pub trait IndexedParallelIterator: ParallelIterator {
 // ------------------------------------------------------------ base iterators
 
 /// Owning base iterator.
+/// Fold `items` over seeded contiguous segments, one accumulator per segment.
+fn split_fold<X, T, ID, F>(items: Vec<X>, identity: &ID, fold_op: &F) -> Vec<T>
+where
+    ID: Fn() -> T,
+    F: Fn(T, X) -> T,
+{
+    let n = items.len();
+    let mut cuts: Vec<usize> = Vec::new();
+    if n >= 2 && verif_rt::ctx::model_choice(3) != 0 {
+        let segs = 2 + verif_rt::ctx::model_choice(7.min(n as u64 - 1)) as usize;
+        while cuts.len() < segs - 1 {
+            let c = 1 + verif_rt::ctx::model_choice(n as u64 - 1) as usize;
+            if !cuts.contains(&c) {
+                cuts.push(c);
+            }
+        }
+        cuts.sort_unstable();
+    }
+    let mut out = Vec::with_capacity(cuts.len() + 1);
+    let mut acc = identity();
+    let mut next = 0usize;
+    for (i, x) in items.into_iter().enumerate() {
+        if next < cuts.len() && cuts[next] == i {
+            out.push(std::mem::replace(&mut acc, identity()));
+            next += 1;
+        }
+        acc = fold_op(acc, x);
+    }
+    out.push(acc);
+    out
+}
+
 pub struct VecIter<T> {
     pub(crate) items: Vec<T>,
 }
